@@ -41,8 +41,10 @@ def native(unit_name):
 
 
 def unit(prop, name, functions=(), tier="quick", expect="hold", timeout_ms=None, max_paths=20000, kind="proof",
-         also=()):
-    """also: further property ids this unit serves; for those only the obligations named '<id>.*' are counted"""
+         also=(), must_cover=()):
+    """also: further property ids this unit serves; for those only the obligations named '<id>.*' are counted
+    must_cover: names given to u.cover(...) that some path has to reach - a reachability check behind a precondition
+    or a ghost axiom: if none does, the unit is reported as a checker fault (its obligations may hold vacuously)"""
 
     def deco(f):
         full = f"{prop}.{name}"
@@ -51,6 +53,7 @@ def unit(prop, name, functions=(), tier="quick", expect="hold", timeout_ms=None,
         d = UnitDecl(prop, full, f, list(functions), tier, expect, (f.__doc__ or "").strip(), timeout_ms,
                      max_paths, kind)
         d.also = tuple(also)
+        d.must_cover = tuple(must_cover)
         UNITS[full] = d
         return f
 
